@@ -58,6 +58,8 @@ def none_excluded(facts, target_text) -> bool:
 
 
 def run(ctx):
+    from ..core import isinstance_alternatives
+
     prog = ctx.prog
     jm = prog.module("flow.record.jsonpacker")
     jf = prog.module("flow.record.adapter.jsonfile")
@@ -70,10 +72,10 @@ def run(ctx):
     # ------------------------------------------------------------------ encoder table
     enc = []  # (class qualname, form, node)
     for st in walk_no_nested(pack_obj):
-        if isinstance(st, ast.If) and isinstance(st.test, ast.Call) and call_name(st.test) == "isinstance" and norm(st.test.args[0]) == obj:
-            t = st.test.args[1]
+        alts = isinstance_alternatives(st.test, obj) if isinstance(st, ast.If) else None
+        if alts is not None:
             classes = []
-            for x in (t.elts if isinstance(t, ast.Tuple) else [t]):
+            for x in alts:
                 r = prog.resolve_expr(jm, x)
                 classes.append(getattr(r, "qualname", None) or getattr(r, "name", None) or norm(x))
             rets = [r for r in ast.walk(st) if isinstance(r, ast.Return) and r.value is not None]
@@ -85,7 +87,7 @@ def run(ctx):
                     for a in ast.walk(st):
                         if isinstance(a, ast.Assign) and norm(a.targets[0]) == vid:
                             v = a.value
-                if isinstance(v, ast.Dict):
+                if isinstance(v, ast.Dict) or (isinstance(v, ast.Call) and call_name(v) == "dict"):
                     form = "dict"
                 elif isinstance(v, ast.Call) and call_name(v) == "str":
                     form = "str"
@@ -277,14 +279,19 @@ def run(ctx):
     from ..logic import facts_as_premises, implies, parse
 
     pcfg = CFG(pack_obj)
-    loops = [n for n in ast.walk(pack_obj) if isinstance(n, ast.For) and "get_field_tuples" in norm(n.iter) and isinstance(n.target, ast.Tuple)]
+    from ..core import element_positions
+
+    loops = [n for n in ast.walk(pack_obj) if isinstance(n, ast.For) and "get_field_tuples" in norm(n.iter)]
     ok = False
     for l in loops:
-        tvar = norm(l.target.elts[0])
+        pos = element_positions(l)
+        tvars = [k for k, v in pos.items() if v == 0]
+        item = l.target.id if isinstance(l.target, ast.Name) else None
+        goals = [f"{t} == 'boolean'" for t in tvars] + ([f"{item}[0] == 'boolean'"] if item else [])
         for a in ast.walk(l):
             if isinstance(a, ast.Assign) and isinstance(a.value, ast.Call) and call_name(a.value) == "bool" and isinstance(a.targets[0], ast.Subscript):
                 prem = facts_as_premises(pcfg.facts_at(pcfg.node_of(a).id))
-                ok = implies(prem, parse(f"{tvar} == 'boolean'"))
+                ok = any(implies(prem, parse(g)) for g in goals)
     ctx.check(ok, "R14.4", "pack_obj:boolean", "boolean fields are not normalised to bool", pack_obj, "bool(serial[field]) for boolean fields")
 
     # ------------------------------------------------------------------ R14.5 fallback derives from the current line
